@@ -306,6 +306,61 @@ func c12R1R3(p *core.Program, r *core.Report, np *core.Func) {
 	if calls == 0 {
 		r.Anchor("R1", "calls of the collecting closure")
 	}
+	// the walk that indexes the comments descends everywhere: its callback answers true (a pruned subtree - a function
+	// signature, a block - can hold struct types whose fields have doc and trailing comments)
+	for _, f := range p.Funcs() {
+		if f.Root() != np || f.Lit == nil {
+			continue
+		}
+		finfo := f.Info()
+		callsCol := false
+		for _, c := range core.Calls(f.Body, false) {
+			if core.VarOf(finfo, c.Fun) == colVar {
+				callsCol = true
+			}
+		}
+		// through a wrapper closure of the collector
+		if !callsCol {
+			for _, c := range core.Calls(f.Body, false) {
+				if v := core.VarOf(finfo, c.Fun); v != nil {
+					if d, single := core.SingleDef(finfo, np.Body, v); single {
+						if lit, isLit := ast.Unparen(d.Rhs).(*ast.FuncLit); isLit {
+							for _, c2 := range core.Calls(lit.Body, false) {
+								if core.VarOf(finfo, c2.Fun) == colVar {
+									callsCol = true
+								}
+							}
+						}
+					}
+				}
+			}
+		}
+		if !callsCol || f.Type.Results == nil || len(f.Type.Results.List) != 1 || !isBasicKind(finfo.TypeOf(f.Type.Results.List[0].Type), types.Bool) {
+			continue
+		}
+		ast.Inspect(f.Body, func(n ast.Node) bool {
+			if lit, isLit := n.(*ast.FuncLit); isLit && lit != f.Lit {
+				return false
+			}
+			ret, isRet := n.(*ast.ReturnStmt)
+			if !isRet || len(ret.Results) != 1 {
+				return true
+			}
+			tv := finfo.Types[ret.Results[0]]
+			good := tv.Value != nil && tv.Value.String() == "true"
+			if !good {
+				// `return false` for the nil node that ends a subtree is what ast.Inspect expects
+				for _, fct := range graph(f).FactsAt(graph(f).PointOf(ret)) {
+					if b, isB := ast.Unparen(fct.Cond).(*ast.BinaryExpr); isB && b.Op == token.EQL && fct.Val && (constNil(finfo, b.X) || constNil(finfo, b.Y)) {
+						good = true
+					}
+				}
+			}
+			r.Check(good, "R1", f, "the indexing walk descends into every node: return "+core.ExprStr(ret.Results[0]), ret.Pos(), "the callback answers true",
+				"the walk that indexes comment groups is cut off below some nodes: documented fields of struct types inside the pruned subtree (a function signature, for instance) have no Doc and no Comment although the comments are in the source")
+			return true
+		})
+	}
 
 	// R3: keys
 	lineFn := keyFunc(p, np)
